@@ -313,6 +313,10 @@ def run_point(ctx, R, zoo, tpl, kd, prefix, tail, D_ok, point, kind, commit_firs
             info["tail_deleted"] = [o for o in rig.objs[:base] if o in rig.session.deleted]
             info["switched"] = [(o, pre_key[id(o)], sa.inspect(o).key) for o in rig.objs[:base]
                                 if pre_key.get(id(o)) is not None and sa.inspect(o).key is not None and sa.inspect(o).key != pre_key[id(o)]]
+            # S5: objects that left the session during the tail by the history's own doing (expunge
+            # cascade from a pending owner that was released from a delete-orphan collection, ...)
+            # make no claim: a rollback cannot bring back what is not in the session any more
+            info["left"] = {id(o) for o in rig.objs[:base] if sa.inspect(o).session is not rig.session}
             info["mark"] = rig.spy.mark()
             if point[0] == "stmt":
                 if kind == "operational-after":
@@ -460,7 +464,7 @@ def run_point(ctx, R, zoo, tpl, kd, prefix, tail, D_ok, point, kind, commit_firs
                     # modified inside it is expired by the savepoint rollback, then made transient)
                     vio("failed-lifecycle-listener-wipes-transient-object", f"{type(o).__name__} slot {slot} is transient after rollback but the identity map still holds its state (its attributes get expired through that stale entry)", {"slot": slot})
                     return   # everything below only repeats it
-            elif pre_kind.get(id(o)) == "persistent":
+            elif pre_kind.get(id(o)) == "persistent" and id(o) not in info.get("left", ()):
                 if any(o is x for x in tail_deleted):
                     ctx.count("deleted_objects_checked_persistent_again")
                 if k != "persistent":
